@@ -83,6 +83,9 @@ def fit_record(Xi, Yi, a, k, space, solver, route, y1d=False, Xn=None, pre=None,
                     rec.update({"Yn": fq(Ynf), "Xrn": fq(m_.inverse_transform(Tn)), "scoren": int(round(float(m_.score(Xnf, Ynarg)) * S))})
             rec["_Yh"] = Yh
             rec["_W"] = m_.regressor_.coef_.T.reshape(X.shape[1], -1) if route != "pre" else None
+            # size of the weights of the (sklearn) regressor: an ill-posed regression (exactly singular X with an unregularised
+            # regressor gives weights of 1e13 and regressed targets with 1e-3 noise) is an input condition, decided by the spec
+            rec["wmax"] = 0 if rec["_W"] is None else int(min(np.abs(rec["_W"]).max(), 1e9))
             rec["_T"] = T
             rec["_lam"] = m_.singular_values_ ** 2
     except Exception as e:  # noqa
